@@ -964,6 +964,13 @@ type Content struct {
 	// Uint32Slice is a specialized byte slice designed for storing and managing 4-byte (uint32) values in a
 	// compact and efficient format.
 	Uint32Slice *Uint32Slice
+	// StoredType records, in the serialized form only, which value field was in
+	// use when the record was written. gob does not transmit zero values, so a
+	// stored 0, false, "" or empty byte array arrives with its field nil and
+	// the record would read back as void; LoadFromByte uses StoredType to put
+	// the typed zero value back. It is 0 (unknown) in records written before
+	// this field existed, which then load exactly as before.
+	StoredType ContentType
 }
 
 // TreasureStatus is an enumeration type representing the status of a "Treasure" operation in the Swamp.
@@ -1561,14 +1568,123 @@ func (t *treasure) ConvertToByte(guardID guard.ID) ([]byte, error) {
 		newObj.treasure.Content = t.treasure.Content
 	}
 
+	// Serialize a copy whose content carries its type tag, so that typed zero
+	// values survive the round trip (see Content.StoredType).
+	model := t.treasure
+	if model.Content != nil {
+		contentCopy := *model.Content
+		contentCopy.StoredType = contentCopy.typeInUse()
+		model.Content = &contentCopy
+	}
+
 	var buf bytes.Buffer
 	encoder := gob.NewEncoder(&buf)
-	err := encoder.Encode(t.treasure)
+	err := encoder.Encode(model)
 	if err != nil {
 		return nil, err
 	}
 	return buf.Bytes(), nil
 
+}
+
+// typeInUse reports which value field of the content is set.
+func (c *Content) typeInUse() ContentType {
+	switch {
+	case c.Void:
+		return ContentTypeVoid
+	case c.Uint8 != nil:
+		return ContentTypeUint8
+	case c.Uint16 != nil:
+		return ContentTypeUint16
+	case c.Uint32 != nil:
+		return ContentTypeUint32
+	case c.Uint64 != nil:
+		return ContentTypeUint64
+	case c.Int8 != nil:
+		return ContentTypeInt8
+	case c.Int16 != nil:
+		return ContentTypeInt16
+	case c.Int32 != nil:
+		return ContentTypeInt32
+	case c.Int64 != nil:
+		return ContentTypeInt64
+	case c.Float32 != nil:
+		return ContentTypeFloat32
+	case c.Float64 != nil:
+		return ContentTypeFloat64
+	case c.String != nil:
+		return ContentTypeString
+	case c.Boolean != nil:
+		return ContentTypeBoolean
+	case c.ByteArray != nil:
+		return ContentTypeByteArray
+	case c.Uint32Slice != nil:
+		return ContentTypeUint32Slice
+	}
+	return ContentTypeVoid
+}
+
+// restoreZeroValue re-creates the typed zero value that gob dropped.
+func (c *Content) restoreZeroValue() {
+	switch c.StoredType {
+	case ContentTypeUint8:
+		if c.Uint8 == nil {
+			c.Uint8 = new(uint8)
+		}
+	case ContentTypeUint16:
+		if c.Uint16 == nil {
+			c.Uint16 = new(uint16)
+		}
+	case ContentTypeUint32:
+		if c.Uint32 == nil {
+			c.Uint32 = new(uint32)
+		}
+	case ContentTypeUint64:
+		if c.Uint64 == nil {
+			c.Uint64 = new(uint64)
+		}
+	case ContentTypeInt8:
+		if c.Int8 == nil {
+			c.Int8 = new(int8)
+		}
+	case ContentTypeInt16:
+		if c.Int16 == nil {
+			c.Int16 = new(int16)
+		}
+	case ContentTypeInt32:
+		if c.Int32 == nil {
+			c.Int32 = new(int32)
+		}
+	case ContentTypeInt64:
+		if c.Int64 == nil {
+			c.Int64 = new(int64)
+		}
+	case ContentTypeFloat32:
+		if c.Float32 == nil {
+			c.Float32 = new(float32)
+		}
+	case ContentTypeFloat64:
+		if c.Float64 == nil {
+			c.Float64 = new(float64)
+		}
+	case ContentTypeString:
+		if c.String == nil {
+			c.String = new(string)
+		}
+	case ContentTypeBoolean:
+		if c.Boolean == nil {
+			c.Boolean = new(bool)
+		}
+	case ContentTypeByteArray:
+		if c.ByteArray == nil {
+			c.ByteArray = []byte{}
+		}
+	case ContentTypeUint32Slice:
+		if c.Uint32Slice == nil {
+			c.Uint32Slice = new(Uint32Slice)
+		}
+	}
+	c.StoredType = ContentTypeVoid
 }
 
 func (t *treasure) LoadFromByte(guardID guard.ID, b []byte, fileName string) error {
@@ -1585,6 +1701,9 @@ func (t *treasure) LoadFromByte(guardID guard.ID, b []byte, fileName string) err
 	err := decoder.Decode(&t.treasure)
 	if err != nil {
 		return err
+	}
+	if t.treasure.Content != nil {
+		t.treasure.Content.restoreZeroValue()
 	}
 	// filenév beállítása
 	t.treasure.FileName = &fileName
